@@ -77,7 +77,7 @@ _re_error = regex.compile(r'''
             '(?>(?>''|[^\?!*\/\[\]':"])+)'
         )!
     )?(?P<name>\#(?>NULL!|DIV/0!|VALUE!|REF!|NUM!|NAME\?|N/A))
-    (?>\s*(?![\s$a-z_0-9'\[(]))?  # A blank before an operand is an intersection.
+    (?>\s*(?![\s$a-z_0-9\#'\[(]))?  # A blank before an operand is an intersection.
 ''', regex.IGNORECASE | regex.X | regex.DOTALL)
 
 
